@@ -114,6 +114,38 @@ type CertSpec struct {
 	NoBasic  bool
 	// RawSubject, when set, is used verbatim as the subject (and as issuer of what it signs).
 	RawSubject []byte
+	// legal but unusual encodings (RFC 5280 allows all of them)
+	AKI             int  // authorityKeyIdentifier: 0 keyIdentifier (usual), 1 absent, 2 issuer+serial form only, 3 all three fields
+	ExtraCritical   bool // the ExtraExt entries are marked critical
+	UnknownCritical bool // a critical extension nobody knows is added
+	EKU             []x509.ExtKeyUsage
+}
+
+// AKI forms.
+const (
+	AKIKeyID = iota
+	AKIAbsent
+	AKIIssuerSerial
+	AKIAll
+)
+
+var oidAKI = asn1.ObjectIdentifier{2, 5, 29, 35}
+
+// akiExt encodes an authorityKeyIdentifier naming the issuer certificate by (its issuer, its serial)
+// and, if withKeyID, by key identifier as well.
+func akiExt(issuer *x509.Certificate, withKeyID bool) pkix.Extension {
+	var body []byte
+	if withKeyID && len(issuer.SubjectKeyId) > 0 {
+		body = append(body, der(asn1.RawValue{Class: asn1.ClassContextSpecific, Tag: 0, Bytes: issuer.SubjectKeyId})...)
+	}
+	dirName := der(asn1.RawValue{Class: asn1.ClassContextSpecific, Tag: 4, IsCompound: true, Bytes: issuer.RawIssuer})
+	body = append(body, der(asn1.RawValue{Class: asn1.ClassContextSpecific, Tag: 1, IsCompound: true, Bytes: dirName})...)
+	ser := issuer.SerialNumber.Bytes()
+	if len(ser) == 0 || ser[0]&0x80 != 0 {
+		ser = append([]byte{0}, ser...)
+	}
+	body = append(body, der(asn1.RawValue{Class: asn1.ClassContextSpecific, Tag: 2, Bytes: ser})...)
+	return pkix.Extension{Id: oidAKI, Value: der(asn1.RawValue{Class: asn1.ClassUniversal, Tag: asn1.TagSequence, IsCompound: true, Bytes: body})}
 }
 
 func intelName(cn string) pkix.Name {
@@ -138,6 +170,18 @@ func Issue(spec CertSpec, pub *Key, issuer *Cert, signKey *Key) *Cert {
 		SignatureAlgorithm:    x509.ECDSAWithSHA256,
 		RawSubject:            spec.RawSubject,
 	}
+	if spec.ExtraCritical {
+		tmpl.ExtraExtensions = nil
+		for _, e := range spec.ExtraExt {
+			e.Critical = true
+			tmpl.ExtraExtensions = append(tmpl.ExtraExtensions, e)
+		}
+	}
+	if spec.UnknownCritical {
+		tmpl.ExtraExtensions = append(append([]pkix.Extension(nil), tmpl.ExtraExtensions...),
+			pkix.Extension{Id: asn1.ObjectIdentifier{1, 3, 6, 1, 4, 1, 55555, 1}, Critical: true, Value: der([]byte("verif"))})
+	}
+	tmpl.ExtKeyUsage = spec.EKU
 	if spec.IsCA && spec.PathLen >= 0 {
 		tmpl.MaxPathLen = spec.PathLen
 		tmpl.MaxPathLenZero = spec.PathLen == 0
@@ -151,6 +195,14 @@ func Issue(spec CertSpec, pub *Key, issuer *Cert, signKey *Key) *Cert {
 		// a parent template carrying the issuer's names but the key that actually signs
 		parent = &x509.Certificate{Subject: issuer.X.Subject, SubjectKeyId: issuer.X.SubjectKeyId, PublicKey: &signKey.Priv.PublicKey,
 			RawSubject: issuer.X.RawSubject}
+	}
+	if issuer != nil {
+		switch spec.AKI {
+		case AKIAbsent:
+			parent.SubjectKeyId = nil
+		case AKIIssuerSerial, AKIAll:
+			tmpl.ExtraExtensions = append(append([]pkix.Extension(nil), tmpl.ExtraExtensions...), akiExt(issuer.X, spec.AKI == AKIAll))
+		}
 	}
 	der, err := x509.CreateCertificate(nil, tmpl, parent, &pub.Priv.PublicKey, signKey.Priv)
 	if err != nil {
